@@ -27,6 +27,7 @@ inductive V
   | det (kv : List (Str × Option Str)) -- a `*_detail` dict: contentparams (type, language — may be None —, base) + value
   | l (items : List (List (Str × Option Str)))   -- stage 3: the `content` list of an entry (one dict per content element)
   | nil                                -- stage 3: Python's None (`_save("summary", None)` after a mismatched `pop_content`)
+  | b (x : Bool)                       -- stage 4: `guidislink`
 deriving DecidableEq, Repr
 
 /-- insertion-ordered dict -/
@@ -78,6 +79,8 @@ structure Core where
   titleDepth : Int := -1              -- `self.title_depth`
   summaryKey : Option Str := none     -- stage 3: `self._summaryKey`
   hasContent : Bool := false          -- stage 3: `self.hasContent`
+  guidislink : Bool := false          -- stage 4: `self.guidislink`
+  isentrylink : Bool := false         -- stage 4: `self.isentrylink`
 deriving Repr
 
 structure MSt where
@@ -151,6 +154,9 @@ def isTitle (h : Str) : Bool := Gen.Mixin.titleHandlersL.any (· == h)
 `summary`, `content`, `content_encoded`), the handler names that reach them — and lists none for a kind whose source no longer has the
 modelled shape -/
 def extKind (h : Str) : Option Str := (Gen.Mixin.handModelledL.find? (·.1 == h)).map (·.2)
+/-- stage 4: the link and guid / id handlers are modelled by hand; handler name ↦ kind (`link`, `guid`), listed only while the source of the
+handlers of that kind and of the helpers they use still has the modelled shape -/
+def lgKind (h : Str) : Option Str := (Gen.Mixin.stage4L.find? (·.1 == h)).map (·.2)
 def canContainRelativeUris : List Str := Gen.Mixin.canContainRelativeUrisL
 def canContainDangerous : List Str := Gen.Mixin.canContainDangerousMarkupL
 def htmlTypes : List Str := Gen.Mixin.htmlTypesL
@@ -225,7 +231,7 @@ def pop (o : Ops) (s : MSt) (element : Str) : MSt :=
     let c := s.c
     let output0 := stripS top.pieces.flatten
     if !top.expecting then ⟨c, rest⟩ else
-    let output1 := if canBeRelativeUri.contains element && !output0.isEmpty && element != S "id" then o.join c.base.baseuri.toList output0 else output0
+    let output1 := if canBeRelativeUri.contains element && !output0.isEmpty && (element != S "id" || c.guidislink) then o.join c.base.baseuri.toList output0 else output0
     let output := o.fix output1
     if element == S "category" || element == S "tags" || element == S "itunes_keywords" then ⟨c, rest⟩ else
     if c.inentry then ⟨{ c with entries := updHead (writeEntry element output c.depth) c.entries }, rest⟩
@@ -239,7 +245,7 @@ def popValue (o : Ops) (s : MSt) (element : Str) : Option Str :=
   | top :: _ =>
     if top.name != element then none else
     let output0 := stripS top.pieces.flatten
-    let output1 := if canBeRelativeUri.contains element && !output0.isEmpty && element != S "id" then o.join s.c.base.baseuri.toList output0 else output0
+    let output1 := if canBeRelativeUri.contains element && !output0.isEmpty && (element != S "id" || s.c.guidislink) then o.join s.c.base.baseuri.toList output0 else output0
     some (o.fix output1)
 
 def push (s : MSt) (name : Str) (expecting : Bool) : MSt := { s with stack := ⟨name, expecting, []⟩ :: s.stack }
@@ -289,7 +295,7 @@ def cpBase64 (c : Core) : Bool := match c.cp with | some p => p.base64 | none =>
 def contentOutput (o : Ops) (c : Core) (element : Str) (out0 : Str) : Option Str × Str :=
   let b64 := cpBase64 c
   let out1 := if b64 then (o.b64 out0).getD out0 else out0
-  let out2 := if canBeRelativeUri.contains element && !out1.isEmpty && element != S "id" then o.join c.base.baseuri.toList out1 else out1
+  let out2 := if canBeRelativeUri.contains element && !out1.isEmpty && (element != S "id" || c.guidislink) then o.join c.base.baseuri.toList out1 else out1
   let ty0 : Option Str := c.cp.map (·.type)
   let out3 := if b64 then out2 else o.decodeEnt (ty0.getD (S "xml")) out2
   let ty1 : Option Str := if !(S "atom").isPrefixOf c.version && ty0 == some (S "text/plain") && o.looksHtml out3 then some (S "text/html") else ty0
@@ -425,6 +431,131 @@ def endPlan (c : Core) (kind : Str) : Str × Bool × Bool :=
     (if c.summaryKey == some (S "content") then (S "content", true, true) else (c.summaryKey.getD (S "summary"), false, true))
   else (S "content", true, false)
 
+
+/-- the core-only effects of `unknown_endtag` after the handler / pop: leave the base / language scope, depth -/
+def endFinish (o : Ops) (c : Core) : Core := { c with base := Base.step o.base c.base .stop, depth := c.depth - 1 }
+
+/-! ### stage 4: link and guid / id (namespaces/_base.py `_start_link`, `_end_link`, `_start_guid`, `_end_guid`; the `link` branches of
+`pop()`; `_enforce_href`, `resolve_uri`, `_save`) -/
+
+/-- `[A-Za-z0-9_]` -/
+def isWordC (c : Char) : Bool := c.isAlphanum || c == '_'
+
+/-- `re.sub("&([A-Za-z0-9_]+);", r"&\g<1>", s)`: the class excludes `;`, so the greedy run either ends at a `;` or there is no match at this `&` -/
+def fixAmpF : Nat → Str → Str
+  | _, [] => []
+  | 0, s => s
+  | n + 1, c :: rest =>
+    if c == '&' then
+      (match rest.takeWhile isWordC, rest.dropWhile isWordC with
+       | r :: run, ';' :: tail => '&' :: (r :: run) ++ fixAmpF n tail
+       | _, _ => '&' :: fixAmpF n rest)
+    else c :: fixAmpF n rest
+def fixAmp (s : Str) : Str := fixAmpF (s.length + 1) s
+
+/-- `attrs_d.setdefault(k, v)` -/
+def sdefault (a : List (Str × Str)) (k v : Str) : List (Str × Str) := if (sget a k).isSome then a else a ++ [(k, v)]
+
+/-- `_enforce_href`: the first PRESENT of url / uri / href, if non-empty, becomes `href`; url and uri are dropped -/
+def enforceHref (a : List (Str × Str)) : List (Str × Str) :=
+  match (sget a (S "url")).orElse fun _ => (sget a (S "uri")).orElse fun _ => sget a (S "href") with
+  | some h => if h.isEmpty then a else sset (a.filter fun kv => !(kv.1 == S "url" || kv.1 == S "uri")) (S "href") h
+  | none => a
+
+/-- the attribute dict `_start_link` stores: defaults for rel and type, `_enforce_href`, the href resolved against the current base -/
+def linkAttrs (o : Ops) (c : Core) (attrsD : List (Str × Str)) : List (Str × Str) :=
+  let a1 := sdefault attrsD (S "rel") (S "alternate")
+  let a2 := sdefault a1 (S "type") (if sget a1 (S "rel") == some (S "self") then S "application/atom+xml" else S "text/html")
+  let a3 := enforceHref a2
+  match sget a3 (S "href") with
+  | some h => sset a3 (S "href") (o.join c.base.baseuri.toList h)
+  | none => a3
+
+/-- replace the current context dict -/
+def putContext (c : Core) (d : D) : Core :=
+  if c.inentry then { c with entries := updHead (fun e => { e with d := d }) c.entries } else { c with feed := d }
+
+/-- `context.setdefault("links", []); context["links"].append(item)`; none when `links` holds something that is not a list (the real
+code raises AttributeError there, which `unknown_starttag` mistakes for a missing handler) -/
+def appendLink (d : D) (item : List (Str × Option Str)) : Option D :=
+  match dget d (S "links") with
+  | some (.l items) => some (dset d (S "links") (.l (items ++ [item])))
+  | none => some (dset d (S "links") (.l [item]))
+  | some _ => none
+
+def isEntryLink (a : List (Str × Str)) : Bool :=
+  sget a (S "rel") == some (S "alternate") && htmlTypes.contains (mapContentType ((sget a (S "type")).getD []))
+
+def startLink (o : Ops) (c : Core) (attrsD : List (Str × Str)) : Except Str (Core × List Elem) :=
+  let a := linkAttrs o c attrsD
+  let isl := c.isentrylink || isEntryLink a
+  match appendLink (contextD c) (a.map fun kv => (kv.1, some kv.2)) with
+  | none =>
+    -- `links` holds something else (a same-named element of the document): `.append` raises AttributeError inside the handler, which
+    -- `unknown_starttag` takes for "no handler" — the fallback then stores the (already completed) attribute dict under `link`
+    .ok (putContext { c with isentrylink := isl } (fset (contextD c) (S "link") (.d (dropDecls a))), [])
+  | some d1 =>
+    match sget a (S "href") with
+    | some h => .ok (putContext { c with isentrylink := isl } (if isl then fset d1 (S "link") (.s h) else d1), [])
+    | none => .ok (putContext { c with isentrylink := isl } d1, [⟨S "link", c.infeed || c.inentry, []⟩])
+
+/-- Python truthiness of a stored value -/
+def truthy : Option V → Bool
+  | none => false
+  | some (.s x) => !x.isEmpty
+  | some (.d kv) => !kv.isEmpty
+  | some (.t x) => x.isSome
+  | some (.det kv) => !kv.isEmpty
+  | some (.l xs) => !xs.isEmpty
+  | some .nil => false
+  | some (.b x) => x
+
+def lset (d : List (Str × Option Str)) (k : Str) (v : Option Str) : List (Str × Option Str) :=
+  if d.any (·.1 == k) then d.map (fun p => if p.1 == k then (k, v) else p) else d ++ [(k, v)]
+
+/-- `link = self._last_item(context, "links"); if link is not None: link["href"] = output` — nothing happens when `links` is not (any
+longer) a non-empty list -/
+def setLastHref (d : D) (out : Str) : D :=
+  match dget d (S "links") with
+  | some (.l items) =>
+    (match items.reverse with
+     | last :: before => dset d (S "links") (.l (before.reverse ++ [lset last (S "href") (some out)]))
+     | [] => d)
+  | _ => d
+
+/-- `pop("link")` (outside text constructs): the generic output chain, then the `link` branches of the storage section -/
+def popLink (o : Ops) (s : MSt) : MSt :=
+  match s.stack with
+  | [] => s
+  | top :: rest =>
+    if top.name != S "link" then s else
+    if !top.expecting then ⟨s.c, rest⟩ else
+    let out := (contentOutput o s.c (S "link") (stripS top.pieces.flatten)).2
+    if s.c.inentry then
+      let out' := fixAmp (replaceAll (S "&amp;") (S "&") out)
+      let d1 := if s.c.isentrylink || !truthy (dget (contextD s.c) (S "link")) then fset (contextD s.c) (S "link") (.s out') else contextD s.c
+      ⟨putContext s.c (if out'.isEmpty then d1 else setLastHref d1 out'), rest⟩
+    else if s.c.infeed then ⟨{ s.c with feed := setLastHref (fset s.c.feed (S "link") (.s (fixAmp out))) (fixAmp out) }, rest⟩
+    else ⟨s.c, rest⟩
+
+def startLG (o : Ops) (c : Core) (kind : Str) (attrsD : List (Str × Str)) : Except Str (Core × List Elem) :=
+  if kind == S "link" then startLink o c attrsD
+  else if kind == S "guid" then
+    .ok ({ c with guidislink := ((sget attrsD (S "ispermalink")).getD (S "true") == S "true") }, [⟨S "id", true, []⟩])
+  else .error (S "unknown stage-4 kind")
+
+/-- `_end_guid`: `value = self.pop("id"); self._save("guidislink", self.guidislink and "link" not in context); if self.guidislink: self._save("link", value)` -/
+def endGuidCore (o : Ops) (s0 : MSt) : Core :=
+  let c1 := (pop o s0 (S "id")).c
+  let c2 := saveDefault c1 (S "guidislink") (.b (c1.guidislink && (dget (contextD c1) (S "link")).isNone))
+  if c1.guidislink then saveDefault c2 (S "link") (match popValue o s0 (S "id") with | some v => .s v | none => .nil) else c2
+
+def endLG (o : Ops) (s0 : MSt) (kind : Str) : Outcome :=
+  if kind == S "link" then
+    .ok ⟨endFinish o { (popLink o s0).c with isentrylink := false }, (popLink o s0).stack⟩
+  else if kind == S "guid" then .ok ⟨endFinish o (endGuidCore o s0), (pop o s0 (S "id")).stack⟩
+  else .unmodelled (S "unknown stage-4 kind")
+
 /-- the dispatch of `unknown_starttag` on the stack-free part of the state: structural handler, other
 handler (outside the model), or the fallback for elements without a handler (mixin.py:305-320).
 Returns the new core and the element to push, if any. -/
@@ -445,7 +576,7 @@ def dispatchCore (s3 : Core) (h : Str) (attrsD : List (Str × Str)) : Except Str
         ({ s3 with infeed := true, version := v }, none) else ({ s3 with infeed := true }, none))
     else
       -- _start_item
-      let s5 : Core := { s3 with entries := {} :: s3.entries, inentry := true, titleDepth := -1 }
+      let s5 : Core := { s3 with entries := {} :: s3.entries, inentry := true, titleDepth := -1, guidislink := false }
       let s6 := match getAttribute s5 attrsD (S "rdf:about") with
         | some id => if id.isEmpty then s5 else setContext s5 (S "id") (.s id)
         | none => s5
@@ -477,15 +608,15 @@ def startTag0 (o : Ops) (s0 : MSt) (tag : Str) (attrs0 : List (Str × Str)) : Ou
   let r := startPre o s0.c tag attrs0
   match extKind (handlerName r.1 tag) with
   | some kind => applyExt s0.stack (startExt r.1 kind r.2)
-  | none => applyDispatch s0.stack (dispatchCore r.1 (handlerName r.1 tag) r.2)
+  | none =>
+    match lgKind (handlerName r.1 tag) with
+    | some kind => applyExt s0.stack (startLG o r.1 kind r.2)
+    | none => applyDispatch s0.stack (dispatchCore r.1 (handlerName r.1 tag) r.2)
 
 /-- inside a text construct a start tag is re-serialised into the content (inline markup) instead of being dispatched: outside
 the model's domain -/
 def startTag (o : Ops) (s0 : MSt) (tag : Str) (attrs0 : List (Str × Str)) : Outcome :=
   if s0.c.incontent then .unmodelled (S "markup inside a text construct") else startTag0 o s0 tag attrs0
-
-/-- the core-only effects of `unknown_endtag` after the handler / pop: leave the base / language scope, depth -/
-def endFinish (o : Ops) (c : Core) : Core := { c with base := Base.step o.base c.base .stop, depth := c.depth - 1 }
 
 /-- the key a text-construct end handler pops: `title` (hand-modelled) or a table element -/
 def contentEndKey (h : Str) : Option Str :=
@@ -535,7 +666,10 @@ def endTag0 (o : Ops) (s0 : MSt) (tag : Str) : Outcome :=
   else if h == S "item" || h == S "entry" then
     let s1 := pop o s0 (S "item")
     .ok ⟨endFinish o { s1.c with inentry := false, hasContent := false }, s1.stack⟩
-  else match dateKey h with
+  else match lgKind h with
+  | some kind => endLG o s0 kind
+  | none =>
+  match dateKey h with
   | some (k, pk) =>
     -- value = self.pop(K); self._save(K_parsed, _parse_date(value), overwrite=True)
     let parsed : Option (List Int) := match popValue o s0 k with
